@@ -1285,17 +1285,90 @@ func (e *Engine) modOfNode(c *FnCtx, n ast.Node) map[string]types.Type {
 
 func (e *Engine) modOfFunc(c *FnCtx, fi *FuncInfo) map[string]types.Type {
 	out := map[string]types.Type{}
+	if e.modMemoGet(c, fi, out) {
+		return out
+	}
 	seen := map[*types.Func]bool{}
 	e.modFunc(c, fi, out, seen)
+	e.modMemoPut(c, fi, out)
 	return out
 }
 
+// The complete frame of a non-generic function does not depend on who asks: it is computed
+// once.  (A nested walk cut short by the cycle guard is never stored.)
+type modMemoEntry struct {
+	keys  map[string]types.Type
+	sorts map[string]string
+}
+
+func modMemoable(fi *FuncInfo) bool {
+	// off by default: replaying a stored frame in another function's context does not replay
+	// the sort declarations (map key sorts, struct sorts) the walk would have made there
+	if os.Getenv("ELKVC_MODMEMO") == "" {
+		return false
+	}
+	if fi == nil || fi.Obj == nil || fi.Sig == nil {
+		return false
+	}
+	if tp := fi.Sig.TypeParams(); tp != nil && tp.Len() > 0 {
+		return false
+	}
+	if tp := fi.Sig.RecvTypeParams(); tp != nil && tp.Len() > 0 {
+		return false
+	}
+	return true
+}
+
+func (e *Engine) modMemoGet(c *FnCtx, fi *FuncInfo, out map[string]types.Type) bool {
+	if !modMemoable(fi) || e.modMemo == nil {
+		return false
+	}
+	m := e.modMemo[fi.Obj]
+	if m == nil {
+		return false
+	}
+	for k, v := range m.keys {
+		out[k] = v
+		if s, ok := m.sorts[k]; ok {
+			if _, have := c.heapSort[k]; !have {
+				c.heapSort[k] = s
+				if v != nil {
+					c.heapType[k] = v
+				}
+			}
+		}
+	}
+	return true
+}
+
+func (e *Engine) modMemoPut(c *FnCtx, fi *FuncInfo, out map[string]types.Type) {
+	if !modMemoable(fi) {
+		return
+	}
+	if e.modMemo == nil {
+		e.modMemo = map[*types.Func]*modMemoEntry{}
+	}
+	m := &modMemoEntry{keys: map[string]types.Type{}, sorts: map[string]string{}}
+	for k, v := range out {
+		m.keys[k] = v
+		if s, ok := c.heapSort[k]; ok {
+			m.sorts[k] = s
+		}
+	}
+	e.modMemo[fi.Obj] = m
+}
+
 func (e *Engine) modFunc(c *FnCtx, fi *FuncInfo, out map[string]types.Type, seen map[*types.Func]bool) {
+	callTargs := e.pendingTargs // the instantiation of the call site this walk comes from, if any
+	e.pendingTargs = nil
 	if fi.Obj != nil {
 		if seen[fi.Obj] {
 			return
 		}
 		seen[fi.Obj] = true
+		if e.modMemoGet(c, fi, out) {
+			return
+		}
 	}
 	if ct := e.Contracts[fi.Key]; ct != nil {
 		for _, g := range ct.GhostMods {
@@ -1312,7 +1385,50 @@ func (e *Engine) modFunc(c *FnCtx, fi *FuncInfo, out map[string]types.Type, seen
 	if fi.Decl == nil || fi.Decl.Body == nil {
 		return
 	}
-	// generic functions: keys depend on instantiation; be conservative
+	// generic functions (not methods of generic types): the union over the instantiations the
+	// repository uses, each walked with its type arguments bound
+	if tps := fi.Sig.TypeParams(); tps != nil && tps.Len() > 0 && fi.Obj != nil && (fi.Sig.RecvTypeParams() == nil || fi.Sig.RecvTypeParams().Len() == 0) {
+		insts := e.instancesOf(fi.Obj)
+		if callTargs != nil {
+			// called from a site whose instantiation the type checker recorded: that one only
+			insts = [][]types.Type{callTargs}
+		}
+		if len(insts) > 0 && len(insts) <= 64 {
+			for _, ts := range insts {
+				if len(ts) != tps.Len() {
+					continue
+				}
+				unresolved := false
+				for _, t := range ts {
+					if hasTypeParam(c.subst(t)) {
+						unresolved = true
+					}
+				}
+				if unresolved && len(insts) > 1 {
+					// an instantiation written inside another generic function, in terms of that
+					// function's parameters: it only happens under an instantiation of the outer
+					// function, which binds them when this walk comes from there
+					continue
+				}
+				fr := &inlineFrame{fn: fi, pkg: fi.Pkg, tsubst: map[*types.TypeParam]types.Type{}}
+				for i := 0; i < tps.Len(); i++ {
+					fr.tsubst[tps.At(i)] = ts[i]
+				}
+				c.frames = append(c.frames, fr)
+				func() {
+					defer func() {
+						c.frames = c.frames[:len(c.frames)-1]
+						if r := recover(); r != nil {
+							starWhy(out, 17)
+						}
+					}()
+					e.modWalk(c, fi.Pkg.TypesInfo, fi.Decl.Body, out, seen)
+				}()
+			}
+			return
+		}
+	}
+	// otherwise: keys depend on instantiation; be conservative
 	if fi.Sig.TypeParams() != nil && fi.Sig.TypeParams().Len() > 0 || fi.Sig.RecvTypeParams() != nil && fi.Sig.RecvTypeParams().Len() > 0 {
 		hasWrite := false
 		ast.Inspect(fi.Decl.Body, func(n ast.Node) bool {
@@ -1334,7 +1450,7 @@ func (e *Engine) modFunc(c *FnCtx, fi *FuncInfo, out map[string]types.Type, seen
 			}()
 			for k, v := range tmp {
 				if strings.Contains(k, "$T") {
-					out["*"] = nil
+					starWhy(out, 1)
 				} else {
 					out[k] = v
 				}
@@ -1349,11 +1465,11 @@ func (e *Engine) modOfAssignsClause(c *FnCtx, fi *FuncInfo, a ast.Expr, out map[
 	a = unparen(a)
 	switch x := a.(type) {
 	case *ast.StarExpr:
-		out["*"] = nil
+		starWhy(out, 2)
 		return
 	case *ast.Ident:
 		if x.Name == "everything" {
-			out["*"] = nil
+			starWhy(out, 3)
 			return
 		}
 		if x.Name == "fresh" || x.Name == "nothing" {
@@ -1433,7 +1549,7 @@ func (e *Engine) modOfAssignsClause(c *FnCtx, fi *FuncInfo, a ast.Expr, out map[
 		}
 	}
 	// anything else: resolve lazily by evaluating in a scratch env is heavy; be conservative
-	out["*"] = nil
+	starWhy(out, 4)
 }
 
 func (e *Engine) modWalk(c *FnCtx, info *types.Info, n ast.Node, out map[string]types.Type, seen map[*types.Func]bool) {
@@ -1455,7 +1571,7 @@ func (e *Engine) modWalk(c *FnCtx, info *types.Info, n ast.Node, out map[string]
 			// find the innermost pointer step
 			t := info.TypeOf(y.X)
 			if t == nil {
-				out["*"] = nil
+				starWhy(out, 5)
 				return
 			}
 			cur := t
@@ -1467,7 +1583,7 @@ func (e *Engine) modWalk(c *FnCtx, info *types.Info, n ast.Node, out map[string]
 				if pt, ok := cu.Underlying().(*types.Pointer); ok {
 					stt, ok := c.subst(pt.Elem()).Underlying().(*types.Struct)
 					if !ok {
-						out["*"] = nil
+						starWhy(out, 6)
 						return
 					}
 					lastPtrStruct = pt.Elem()
@@ -1477,7 +1593,7 @@ func (e *Engine) modWalk(c *FnCtx, info *types.Info, n ast.Node, out map[string]
 				} else if stt, ok := cu.Underlying().(*types.Struct); ok {
 					cur = stt.Field(i).Type()
 				} else {
-					out["*"] = nil
+					starWhy(out, 7)
 					return
 				}
 			}
@@ -1490,7 +1606,7 @@ func (e *Engine) modWalk(c *FnCtx, info *types.Info, n ast.Node, out map[string]
 		case *ast.IndexExpr:
 			bt := info.TypeOf(y.X)
 			if bt == nil {
-				out["*"] = nil
+				starWhy(out, 8)
 				return
 			}
 			switch u := c.subst(bt).Underlying().(type) {
@@ -1504,18 +1620,18 @@ func (e *Engine) modWalk(c *FnCtx, info *types.Info, n ast.Node, out map[string]
 			case *types.Array:
 				e.modLhsBase(c, info, y.X, out)
 			default:
-				out["*"] = nil
+				starWhy(out, 9)
 			}
 		case *ast.StarExpr:
 			pt := info.TypeOf(y.X)
 			if pt == nil {
-				out["*"] = nil
+				starWhy(out, 10)
 				return
 			}
 			if p, ok := c.subst(pt).Underlying().(*types.Pointer); ok {
 				e.addElemKeys(c, p.Elem(), out)
 			} else {
-				out["*"] = nil
+				starWhy(out, 11)
 			}
 		}
 	}
@@ -1539,7 +1655,7 @@ func (e *Engine) modWalk(c *FnCtx, info *types.Info, n ast.Node, out map[string]
 		case *ast.FuncLit:
 			return false
 		case *ast.GoStmt:
-			out["*"] = nil
+			starWhy(out, 12)
 		case *ast.CallExpr:
 			e.modCall(c, info, s, out, seen)
 		}
@@ -1564,7 +1680,7 @@ func (e *Engine) modLhsBase(c *FnCtx, info *types.Info, base ast.Expr, out map[s
 func (e *Engine) addElemKeys(c *FnCtx, elem types.Type, out map[string]types.Type) {
 	elem = c.subst(elem)
 	if _, ok := elem.(*types.TypeParam); ok {
-		out["*"] = nil
+		starWhy(out, 13)
 		return
 	}
 	if _, stt, ok := c.structOf(elem); ok && !isOpaqueStruct(elem) && !c.isMemStruct(elem) {
@@ -1592,9 +1708,11 @@ func (e *Engine) modCall(c *FnCtx, info *types.Info, call *ast.CallExpr, out map
 		fun = unparen(f.X)
 	}
 	var callee *types.Func
+	var instIdent *ast.Ident
 	dynamic := false
 	switch f := fun.(type) {
 	case *ast.Ident:
+		instIdent = f
 		switch o := info.ObjectOf(f).(type) {
 		case *types.Builtin:
 			switch o.Name() {
@@ -1615,7 +1733,7 @@ func (e *Engine) modCall(c *FnCtx, info *types.Info, call *ast.CallExpr, out map
 					}
 				}
 			case "clear":
-				out["*"] = nil
+				starWhy(out, 14)
 			}
 			return
 		case *types.Func:
@@ -1628,7 +1746,8 @@ func (e *Engine) modCall(c *FnCtx, info *types.Info, call *ast.CallExpr, out map
 			if sel.Kind() == types.MethodVal {
 				callee = sel.Obj().(*types.Func)
 				if rt := sel.Recv(); rt != nil {
-					if _, isI := c.subst(rt).Underlying().(*types.Interface); isI {
+					if ri, isI := c.subst(rt).Underlying().(*types.Interface); isI {
+						e.chaIface = ri // the static interface of the receiver at this call
 						for k, v := range e.modOfMethodNameSeen(c, callee, seen) {
 							out[k] = v
 						}
@@ -1640,6 +1759,7 @@ func (e *Engine) modCall(c *FnCtx, info *types.Info, call *ast.CallExpr, out map
 			}
 		} else if o, ok := info.Uses[f.Sel].(*types.Func); ok {
 			callee = o
+			instIdent = f.Sel
 		} else if _, ok := info.Uses[f.Sel].(*types.Builtin); ok {
 			return // unsafe.Add and friends: no effect
 		} else {
@@ -1649,10 +1769,23 @@ func (e *Engine) modCall(c *FnCtx, info *types.Info, call *ast.CallExpr, out map
 		dynamic = true
 	}
 	if dynamic {
+		if os.Getenv("ELKVC_NODYN") == "" {
+			if sig, ok := info.TypeOf(fun).(*types.Signature); ok && sig != nil {
+				if e.modDynamic(c, sig, out, seen) {
+					return
+				}
+			} else if t := info.TypeOf(fun); t != nil {
+				if sig, ok := t.Underlying().(*types.Signature); ok {
+					if e.modDynamic(c, sig, out, seen) {
+						return
+					}
+				}
+			}
+		}
 		if os.Getenv("ELKVC_MODS_WHY") != "" {
 			fmt.Fprintf(os.Stderr, "mods * : dynamic call at %s\n", e.Fset.Position(call.Pos()))
 		}
-		out["*"] = nil
+		starWhy(out, 15)
 		return
 	}
 	if callee == nil {
@@ -1673,6 +1806,14 @@ func (e *Engine) modCall(c *FnCtx, info *types.Info, call *ast.CallExpr, out map
 		return
 	}
 	fi := e.ByObj[callee.Origin()]
+	e.pendingTargs = nil
+	if fi != nil && instIdent != nil {
+		if inst, ok := info.Instances[instIdent]; ok && inst.TypeArgs != nil {
+			for i := 0; i < inst.TypeArgs.Len(); i++ {
+				e.pendingTargs = append(e.pendingTargs, inst.TypeArgs.At(i))
+			}
+		}
+	}
 	if fi == nil {
 		// external function: assumed not to write tracked state, except via known ghost state
 		if callee.Pkg() != nil && callee.Pkg().Path() == "math/big" {
@@ -1693,6 +1834,8 @@ func (e *Engine) modOfMethodName(c *FnCtx, m *types.Func) map[string]types.Type 
 
 func (e *Engine) modOfMethodNameSeen(c *FnCtx, m *types.Func, seen map[*types.Func]bool) map[string]types.Type {
 	out := map[string]types.Type{}
+	siteIface := e.chaIface // the static interface of the receiver at the call this comes from
+	e.chaIface = nil
 	if ct := e.Contracts[FuncKey(m)]; ct != nil && ct.AssignsGiven {
 		// the interface method itself carries a frame contract
 		for _, a := range ct.Assigns {
@@ -1705,21 +1848,51 @@ func (e *Engine) modOfMethodNameSeen(c *FnCtx, m *types.Func, seen map[*types.Fu
 	}
 	seen[m] = true
 	var keys []string
+	// the interface the method was declared in (nil when not recoverable): only receivers that
+	// implement it can be behind the call
+	var iface *types.Interface
+	if msig, ok := m.Type().(*types.Signature); ok && msig.Recv() != nil {
+		iface, _ = msig.Recv().Type().Underlying().(*types.Interface)
+	}
+	if siteIface != nil {
+		iface = siteIface
+	}
 	for k, fi := range e.Funcs {
 		if fi.Obj != nil && fi.Obj.Name() == m.Name() && fi.Sig.Recv() != nil {
+			if iface != nil && iface.NumMethods() > 0 {
+				rt := fi.Sig.Recv().Type()
+				if _, isPtr := rt.(*types.Pointer); !isPtr {
+					// methods with value receivers are in the method set of T and *T
+					if !types.Implements(rt, iface) && !types.Implements(types.NewPointer(rt), iface) {
+						continue
+					}
+				} else if !types.Implements(rt, iface) {
+					continue
+				}
+			}
 			keys = append(keys, k)
 		}
 	}
 	sort.Strings(keys)
-	if len(keys) > 40 {
+	if len(keys) > 400 {
 		if os.Getenv("ELKVC_MODS_WHY") != "" {
 			fmt.Fprintf(os.Stderr, "mods * : interface method %s has %d implementations\n", m.Name(), len(keys))
 		}
-		out["*"] = nil
+		starWhy(out, 16)
 		return out
 	}
 	for _, k := range keys {
 		e.modFunc(c, e.Funcs[k], out, seen)
 	}
 	return out
+}
+
+// starWhy marks a frame as "anything" (ELKVC_MODS_WHY=1 prints which rule did).
+func starWhy(out map[string]types.Type, site int) {
+	if os.Getenv("ELKVC_MODS_WHY") != "" {
+		if _, have := out["*"]; !have {
+			fmt.Fprintf(os.Stderr, "mods * : rule %d of call.go\n", site)
+		}
+	}
+	out["*"] = nil
 }
